@@ -137,6 +137,7 @@ func isoText() string {
 	return `rule "own" "tag-1" salience 9
 begin
   enter(req.Id, "own", 1)
+  chk(req.Id, holdq(req.Id))
   if failq(req.Id) { boom() }
   if condq(req.Id) { if notbool() { x = 1 } }
   if retq(req.Id) { return req.Id }
@@ -184,6 +185,15 @@ func (d *drv) api() map[string]interface{} {
 			return d.reqs[q] != nil && d.reqs[q].Fail == "cond"
 		},
 		"notbool": func() int64 { return 1 },
+		// chk(req.Id, holdq(req.Id)): the second argument blocks on a gate after the first one was evaluated;
+		// both must still belong to the same request when the call is made (positional arguments, C03 / C06)
+		"holdq": func(q int64) int64 {
+			d.o.Park("holdq")
+			return q
+		},
+		"chk": func(a, b int64) {
+			d.o.Emit(obs.Event{"ev": "argpair", "a": a, "b": b})
+		},
 		"retq": func(q int64) bool {
 			d.mu.Lock()
 			defer d.mu.Unlock()
